@@ -20,19 +20,23 @@ the label histogram, the oracle classifies the payload itself.
 * ``ip``: every textual form of generated IPv4/IPv6 addresses => True; host names, empty strings,
   strings with NUL => False.
 
-Sensitivity (quick tier, seed 1, one mutant at a time on a scratch copy):
+Sensitivity (quick tier, seed 1, one mutant at a time on a scratch copy; all runs exit 1 unless noted):
   * ``fullmatch`` -> ``match`` in parse_request_start_line ............ caught (C43.reqline_must_reject)
   * ``fullmatch`` -> ``match`` in parse_response_start_line ........... caught (C43.statusline_must_reject)
+  * ``status_code`` ``[0-9]{3}`` -> ``\\d{3}`` (Unicode digits) .......... caught (C43.statusline_must_reject)
   * ``url_concat`` dropping the fragment (parsed_url[5] -> "") ....... caught (C43.url_concat_fragment)
+  * ``url_concat`` dict branch without keep_blank_values ............. caught (C43.url_concat_query_pairs)
   * ``_re_unescape_replacement`` accepting alphanumerics ............. caught (C43.re_unescape_alnum_accepted)
-  * ``split_host_and_port`` try/except removed (= pre-fix F3) ......... caught (C43.hostport_raises)
-  * ``_netloc_re`` ``(\\d+)`` -> ``(\\d*)`` .............................. caught (C43.hostport_raises)
+  * ``split_host_and_port`` without the try/except (= snapshot 59274db, F3) caught (C43.hostport_raises,
+    also by replays/C43/F03-host-port-4301-digits.json)
   * ``is_valid_ip`` NUL guard removed ................................ caught (C43.ip_nul_accepted)
-  * ``format_timestamp`` datetime branch using ``timetuple()`` + ``time.mktime`` is equivalent in a UTC
-    sandbox, so instead: ``calendar.timegm(ts.timetuple())`` (aware datetimes not converted) ... caught
+  * ``format_timestamp`` ``utctimetuple()`` -> ``timetuple()`` ........ caught (C43.timestamp_roundtrip)
   * ``_parse_header`` not lower-casing names ......................... caught (C43.encode_roundtrip)
-  * the planned "``_netloc_re`` non-greedy" mutant is *equivalent* (the ``$`` anchor forces the same
-    split), so it was replaced by the two host/port mutants above.
+  * NOT caught because equivalent: ``_netloc_re`` non-greedy (planned in DESIGN; the ``$`` anchor forces
+    the same split) and ``(\\d+)`` -> ``(\\d*)`` (``int("")`` lands in the existing ``except ValueError``).
+
+Open findings (known_findings.d/C43.json, findings_inbox/C43-parse-header-rfc2231-crashes.md): three ways
+``_parse_header`` raises on untrusted text, all inside ``email.utils`` RFC 2231 handling.
 """
 import calendar
 import datetime
@@ -59,7 +63,7 @@ from tornado.netutil import is_valid_ip
 from tornado.util import re_unescape
 
 PROPERTY = "C43"
-READY = False
+READY = True
 RULE = (
     "ten Hypothesis parts, one per function; inputs are grammar-built strings, named near-miss mutations "
     "of them and arbitrary Unicode text (no surrogates); non-trivial = the input exercises a non-default "
@@ -949,13 +953,13 @@ PARTS = {
 
 def main(ctx):
     ctx.run_replays(PARTS)
-    ctx.explore(reqline_s, run_reqline, ctx.n(2500, 300000), name="reqline")
-    ctx.explore(statusline_s, run_statusline, ctx.n(2500, 300000), name="statusline")
-    ctx.explore(parse_header_s, run_parse_header, ctx.n(2500, 300000), name="parse_header")
-    ctx.explore(cookie_s, run_cookie, ctx.n(1500, 150000), name="cookie")
-    ctx.explore(hostport_s, run_hostport, ctx.n(1500, 150000), name="hostport")
-    ctx.explore(encode_s, run_encode, ctx.n(1500, 150000), name="encode")
+    ctx.explore(reqline_s, run_reqline, ctx.n(2000, 300000), name="reqline")
+    ctx.explore(statusline_s, run_statusline, ctx.n(2000, 300000), name="statusline")
+    ctx.explore(parse_header_s, run_parse_header, ctx.n(2000, 300000), name="parse_header")
+    ctx.explore(cookie_s, run_cookie, ctx.n(1200, 150000), name="cookie")
+    ctx.explore(hostport_s, run_hostport, ctx.n(1200, 150000), name="hostport")
+    ctx.explore(encode_s, run_encode, ctx.n(1200, 150000), name="encode")
     ctx.explore(timestamp_s, run_timestamp, ctx.n(1000, 100000), name="timestamp")
-    ctx.explore(url_concat_s, run_url_concat, ctx.n(2000, 200000), name="url_concat")
-    ctx.explore(re_unescape_s, run_re_unescape, ctx.n(1500, 150000), name="re_unescape")
-    ctx.explore(ip_s, run_ip, ctx.n(1500, 150000), name="ip")
+    ctx.explore(url_concat_s, run_url_concat, ctx.n(1500, 200000), name="url_concat")
+    ctx.explore(re_unescape_s, run_re_unescape, ctx.n(1200, 150000), name="re_unescape")
+    ctx.explore(ip_s, run_ip, ctx.n(1200, 150000), name="ip")
